@@ -1,10 +1,11 @@
 INIT Init
 NEXT Next
 CONSTANTS
-  MaxEntries = 4
-  Coefs = {1, 2, 7}
+  MaxEntries = 3
+  Coefs = {1, 2, 3}
 INVARIANT AllPositiveFractions
 INVARIANT SumIsTotal
 INVARIANT Proportional
+INVARIANT HasEqualProducts
 INVARIANT Emit
 CHECK_DEADLOCK FALSE
